@@ -49,6 +49,7 @@ type State struct {
 	atomicOps []string
 	plainOps []string
 	leftLoop bool // dry-run marker: this state does not flow back to the loop head
+	escaped map[types.Object]string // struct-typed locals whose address was taken: they live in the heap at this reference
 	entryLen int  // number of path-condition conjuncts that describe the entry state (requires, repinv, axioms)
 }
 
@@ -80,6 +81,12 @@ func (st *State) clone() *State {
 	n.loopSeen = make(map[int]string, len(st.loopSeen))
 	for k, v := range st.loopSeen {
 		n.loopSeen[k] = v
+	}
+	if len(st.escaped) > 0 {
+		n.escaped = make(map[types.Object]string, len(st.escaped))
+		for k, v := range st.escaped {
+			n.escaped[k] = v
+		}
 	}
 	n.trace = append([]string(nil), st.trace...)
 	n.atomicOps = append([]string(nil), st.atomicOps...)
@@ -425,7 +432,7 @@ func (d *Decls) heapAxioms() string {
 	for _, n := range names {
 		if d.isRef != nil && d.isRef[n] {
 			c := d.entryHeaps[n]
-			b.WriteString(fmt.Sprintf("(assert (forall ((r Int)) (! (<= (select %s r) |wm@0|) :pattern ((select %s r)))))\n", c, c))
+			b.WriteString(fmt.Sprintf("(assert (forall ((r Int)) (! (=> (<= r |wm@0|) (<= (select %s r) |wm@0|)) :pattern ((select %s r)))))\n", c, c))
 		}
 		if d.isRef != nil && d.isRef["neg:"+n] {
 			// identities of xsync.Map values embedded in structs live below zero
